@@ -7,10 +7,11 @@ ENTRY = dict(
         corr_files=["Corr/C02Corr.v"],
         theorems=["c02_keq_sound", "c02_family_exact", "c02_fixed_exact", "c02_move_exact", "c02_nonlocal_exact",
                   "c02_u_from_thetavec", "c02_kak_dressing", "c02_kak_model", "c02_kak_exact", "c02_spec_sanity", "c02_refusal", "c02_missing_param_crashes",
-                  "c02_registry", "c02_source_tables"],
+                  "c02_registry", "c02_source_tables", "c02_dispatch_is_basis_of", "c02_dispatch_exact",
+                  "c02_dispatch_move_exact", "c02_registry_groups", "c02_angle_flow"],
         allowed_axioms=["ClassicalDedekindReals.sig_not_dec", "ClassicalDedekindReals.sig_forall_dec",
                         "FunctionalExtensionality.functional_extensionality_dep"],
-        facts=["registry_names", "cx_family_coeffs", "move_table_coeffs", "family_coeff_shape", "nonlocal_term_count"],
+        facts=["registry_names", "cx_family_coeffs", "move_table_coeffs", "family_coeff_shape", "nonlocal_term_count", "registry_groups", "angle_flow"],
         harness="c02",
         level_text="For the hand-written model of qpd/decompositions.py: the coefficient-weighted sum of Kronecker products of the "
                    "one-qubit Pauli-transfer matrices (QPDMeasure = P0.P0 - P1.P1, Reset as a channel) equals the real 16x16 PTM of the "
@@ -40,8 +41,13 @@ ENTRY = dict(
             "Instruction('swap',2,0,[]), Gate('move',1,[])) receives the registered basis, and Gate('rzz',2,[]) raises IndexError "
             "(theorem c02_missing_param_crashes). Such inputs are generated as an observation stream; the oracle is silent on them",
             "nan/inf angles are outside 'all real angles' and are not generated",
-            "rotation parameters are symbolic (2*theta', +-pi/2, +-pi/4); the harness checks that the observed float parameter equals "
-            "the float value of the modelled symbol exactly",
+            "rotation parameters are symbolic (2*theta', +-pi/2, +-pi/4); that 2*theta' is what the code's angle arithmetic "
+            "(theta = -theta/2, rot(-theta), theta_prime = -theta/2, PhaseGate(theta/2), CRZGate(np.pi/2) ...) produces is now a "
+            "theorem about Model/BasesDispatch.v (angles_ok in c02_dispatch_exact), whose angle expressions are regenerated from "
+            "the source (fact angle_flow); the harness additionally checks the observed float parameter exactly",
+            "Model/BasesDispatch.v models the registry dict (fact registry_groups), _theta_from_instruction and the nested registry "
+            "calls; c02_dispatch_exact states exactness against the gate's own unitary in the gate angle theta for all real theta; "
+            "those unitaries (Uh_*) are compared with gate.to_matrix() at every generated angle (chk_unitary_h)",
         ],
         harness_timeout=1500,
     )
